@@ -60,6 +60,10 @@ CHECKS = {
              must_probe=['alloc_mode_3', 'alloc_mode_4', 'alloc_mode_5', 'workspace_queries', 'abort_under_fault', 'returned_info_gt_n', 'workspace_size_sufficient_after_all', 'user_workspace_calls'],
              assumptions=["a call that returns info = 0 after an injected failure is accepted only if its result passes the full oracles (counted as succeeded_despite_failed_request)",
                           "allocator requests are counted inside the driver call only (orderings computed by get_perm_c before the call are outside the armed window)"]),
+ 'C16': dict(seed_offset=16, level='exploration', rule=RULE_A + "; patterns have a full diagonal (half of them symmetrized), values are row- and column-diagonally dominant, SymmetricMode = YES, u = 0, ordering MMD on A'+A (85 %; other orderings are co-observed only)",
+             props=['C16', 'C05', 'C02', 'C07', 'C09'],
+             batches=[dict(profile='sym', flavour='plain', quick=40000, thorough=2000000), dict(profile='sym', flavour='asan', quick=3000, thorough=100000)],
+             must_probe=['sym_runs_checked', 'sym_runs_mmd_at_plus_a', 'lusup_allocs_checked', 'factorizations_checked']),
  'C17': dict(seed_offset=17, level='exploration', rule=RULE_A + "; a case here is a history (as in C08) extended with early-return calls (workspace query, illegal argument, exactly singular matrix, caller workspace too small) that ends with the documented destroy calls and is executed twice in a row",
              props=['C17'],
              batches=[dict(profile='leak', flavour='plain', quick=20000, thorough=1000000)],
